@@ -105,6 +105,15 @@ CLAIMS = {
                 'iff a cursor was given. Exactly-once pagination, order reversal, grouping and the capacity sum are value clauses, not decided.',
         'note': 'Not decided: pagination exactness, desc = reverse(asc), grouped = group(ungrouped), capacity = sum over cells.',
     },
+    'C08': {
+        'technique': 'static analysis: write-primitive discovery, reachability / dominance ordering of durable writes over compiler MIR',
+        'text': 'Decides a write-order discipline, each rule tied to the crash point that loses data or bricks the store when violated: durable '
+                'write primitives live only in storage.rs; the matched-blocks record is removed only after its blocks were indexed and '
+                'script numbers raised; the initialised marker is the last durable write of first-run init; a filter batch is recorded '
+                'before progress advances; the set_scripts rewind is not a separate write after the script batch; indexing/rollback of a '
+                'block is one atomic batch. Convergence after a crash at every boundary of every history is a value clause and not decided.',
+        'note': 'Not decided: equality of post-crash RPC answers over histories x crash points; update_last_state two-put atomicity (advisory).',
+    },
 }
 
 _PENDING = 'check not built yet in this round (planned in DESIGN.md §5); not claimed until its rules run on the tree'
